@@ -204,12 +204,22 @@ func runMix(mx *cMix) []porcupine.Operation {
 			case "get":
 				v, ok := mm.Get(op.Key)
 				if ok {
+					if v == nil {
+						return cOut{Val: 0, Ok: true}
+					}
 					return cOut{Val: v.(int64), Ok: true}
 				}
 				return cOut{}
 			case "insert":
+				if op.Val == 0 {
+					return cOut{Ok: mm.Insert(op.Key, nil)}
+				}
 				return cOut{Ok: mm.Insert(op.Key, op.Val)}
 			case "set":
+				if op.Val == 0 {
+					mm.Set(op.Key, nil)
+					break
+				}
 				mm.Set(op.Key, op.Val)
 			case "remove":
 				mm.Remove(op.Key)
@@ -547,6 +557,9 @@ func genMix(rt *rapid.T) *cMix {
 			if target == "flag" {
 				ops[j].Val = val % 2
 			}
+			if target == "mutexmap" && rapid.IntRange(0, 3).Draw(rt, "nil-value") == 0 {
+				ops[j].Val = 0 // stored as an untyped nil: a key that is present with a nil value is present
+			}
 			if target == "counter" && (ops[j].Kind == "add" || ops[j].Kind == "sub") {
 				ops[j].Val = int64(rapid.IntRange(-3, 1000).Draw(rt, "delta"))
 			}
@@ -602,6 +615,8 @@ var liveOverKinds = map[string]bool{"burn": true, "localburn": true, "transfer":
 	"nfttransfer": true, "nft-xshard": true, "nft-call": true, "nft-xshard-call": true, "multi": true, "multi-xshard": true, "multi-call": true, "multi-xshard-call": true}
 
 type liveObs struct {
+	out                 *vmcommon.VMOutput // as returned (not a copy)
+	outWas              string             // its rendering at that moment
 	fn                  string
 	consumed            uint64
 	provided, remaining uint64
@@ -772,6 +787,8 @@ func c19LiveRun(lc *liveCase, mode string, baseA, baseB [][]liveObs) ([][]liveOb
 				c = &Call{Fn: refBuiltInFunctionUnSetESDTRole, Caller: sys, Rcv: p.b, Args: hbs(p.ftok, []byte(refESDTRoleLocalBurn))}
 			case "setusername":
 				c = &Call{Fn: refBuiltInFunctionSetUserName, Caller: dns, Rcv: p.b, Args: hbs(append([]byte("name"), blob...))}
+			case "setusername-xshard":
+				c = &Call{Fn: refBuiltInFunctionSetUserName, Caller: dns, Rcv: p.remote, Args: hbs(append([]byte("name"), blob...))}
 			case "changeowner":
 				c = &Call{Fn: refBuiltInFunctionChangeOwnerAddress, Caller: p.a, Rcv: p.sc, Args: hbs(p.a)}
 			case "claim":
@@ -802,6 +819,7 @@ func c19LiveRun(lc *liveCase, mode string, baseA, baseB [][]liveObs) ([][]liveOb
 				if err == nil && out != nil {
 					sh.nodeSave(c, snd, dst)
 					o.ok = true
+					o.out, o.outWas = out, canonOutput(&Result{Out: out})
 					o.remaining = out.GasRemaining
 					spent := out.GasRemaining
 					for _, oa := range out.OutputAccounts {
@@ -818,9 +836,25 @@ func c19LiveRun(lc *liveCase, mode string, baseA, baseB [][]liveObs) ([][]liveOb
 			results[t] = append(results[t], o)
 		}
 	}
+	// what a call returned belongs to the node from then on: no later execution may reach into it
+	outputsIntact := func() (string, string) {
+		for t, rs := range results {
+			for j, o := range rs {
+				if o.out != nil {
+					if now := canonOutput(&Result{Out: o.out}); now != o.outWas {
+						return "live/" + o.fn + "/earlier-output-changed-by-a-later-execution", fmt.Sprintf("goroutine %d op %d (%s) returned\n  %s\nwhich, after later executions, reads\n  %s", t, j, o.fn, o.outWas, now)
+					}
+				}
+			}
+		}
+		return "", ""
+	}
 	if !concurrent {
 		for t := 0; t < nthreads; t++ {
 			runThread(t, 0, len(opsOf[t]))
+		}
+		if sig, msg := outputsIntact(); sig != "" {
+			return nil, sig, msg, 0
 		}
 		for t, rs := range results {
 			for j, o := range rs {
@@ -899,6 +933,9 @@ func c19LiveRun(lc *liveCase, mode string, baseA, baseB [][]liveObs) ([][]liveOb
 	for t := 0; t < nthreads; t++ {
 		runThread(t, len(lc.Threads[t]), len(opsOf[t]))
 	}
+	if sig, msg := outputsIntact(); sig != "" {
+		return nil, sig, msg, 0
+	}
 	n := 0
 	for t, rs := range results {
 		for j, o := range rs {
@@ -944,9 +981,18 @@ func genLive(rt *rapid.T) *liveCase {
 	for i := 0; i < n; i++ {
 		k := rapid.IntRange(1, 40).Draw(rt, "live-nops")
 		ops := make([]liveOp, k)
+		// one goroutine in three does the same thing over and over: that function is then busy most of the time, so a
+		// reconfiguration is likely to arrive while it executes
+		same := ""
+		if rapid.IntRange(0, 2).Draw(rt, "live-monotone") == 0 {
+			same = rapid.SampledFrom(liveProbes).Draw(rt, "live-monotone-kind")
+		}
 		for j := range ops {
 			ops[j] = liveOp{Kind: rapid.SampledFrom([]string{"skv", "create", "adduri", "update", "mint", "transfer", "skv", "create", "adduri", "update", "skv", "create", "adduri", "update", "localburn", "burn", "addq", "nftburn", "nfttransfer", "multi", "freeze", "unfreeze", "pause", "unpause", "setrole", "unsetrole", "adduri", "update", "setusername", "changeowner", "claim", "wipe", "setusername", "mint", "localburn", "burn", "addq", "nftburn", "transfer",
-				"nft-xshard", "nft-xshard", "nft-call", "nft-xshard-call", "multi-xshard", "multi-xshard", "multi-call", "multi-xshard-call", "transfer-call", "transfer-call", "transfer-xshard", "nfttransfer", "multi"}).Draw(rt, "live-kind"), Size: rapid.SampledFrom([]int{0, 1, 17, 200}).Draw(rt, "live-size"), Tight: rapid.IntRange(0, 2).Draw(rt, "live-tight") == 0, Starved: rapid.IntRange(0, 7).Draw(rt, "live-starved") == 0, Over: rapid.IntRange(0, 7).Draw(rt, "live-over") == 0}
+				"setusername-xshard", "setusername-xshard", "nft-xshard", "nft-xshard", "nft-call", "nft-xshard-call", "multi-xshard", "multi-xshard", "multi-call", "multi-xshard-call", "transfer-call", "transfer-call", "transfer-xshard", "nfttransfer", "multi"}).Draw(rt, "live-kind"), Size: rapid.SampledFrom([]int{0, 1, 17, 200}).Draw(rt, "live-size"), Tight: rapid.IntRange(0, 2).Draw(rt, "live-tight") == 0, Starved: rapid.IntRange(0, 7).Draw(rt, "live-starved") == 0, Over: rapid.IntRange(0, 7).Draw(rt, "live-over") == 0}
+			if same != "" {
+				ops[j].Kind = same
+			}
 		}
 		lc.Threads = append(lc.Threads, ops)
 	}
